@@ -139,4 +139,5 @@ def drive(contract, c, s, gen):
             finally:
                 c.spec_mode -= 1
         s._seg = c.heap.snapshot()
+        c.seg_state = s._seg
         send = ys.resume(s, y) if ys.resume else None
